@@ -161,6 +161,213 @@ theorem device_outputs_exact (hist : List In) (hd : ∀ i ∈ hist, i.rx.data < 
   show specOuts init (List.map sofOf (tokRun devConfig TokenDetector.init hist)) = _
   rw [token_events_exact devConfig _ hd]
 
+/-! ## Bus resets and address updates
+
+`dStep` (model file) is the device with its address register: `busReset` (the `reset_detected` port =
+`reset_sequencer.bus_reset`) and the endpoints' `address_changed` / `new_address` are inputs.  What
+the code does on a bus reset: it clears the address (and the configuration) — the frame registers,
+the strobes and the token detector's registers are not assigned.  The theorems below say so for
+every history: the four frame ports in every cycle, and the registers at the end, are a function of
+the UTMI receive columns alone. -/
+
+/-- Value of the address register in every cycle of a history. -/
+def addrTrace : Nat → List DevIn → List Nat
+  | _, [] => []
+  | a, i :: is => a :: addrTrace (nextAddress a i) is
+
+def addrEnd : Nat → List DevIn → Nat
+  | a, [] => a
+  | a, i :: is => addrEnd (nextAddress a i) is
+
+/-- What the token detector inside the device sees. -/
+def tokIns : Nat → List DevIn → List In
+  | _, [] => []
+  | a, i :: is => ⟨i.rx, a⟩ :: tokIns (nextAddress a i) is
+
+theorem tokIns_rx (a : Nat) (hist : List DevIn) : (tokIns a hist).map (·.rx) = hist.map (·.rx) := by
+  induction hist generalizing a with
+  | nil => rfl
+  | cons i is ih => simp only [tokIns, List.map_cons, ih]
+
+theorem tokIns_append (a : Nat) (hist : List DevIn) (x : DevIn) :
+    tokIns a (hist ++ [x]) = tokIns a hist ++ [⟨x.rx, addrEnd a hist⟩] := by
+  induction hist generalizing a with
+  | nil => rfl
+  | cons i is ih => simp only [List.cons_append, tokIns, addrEnd, ih]
+
+theorem dRun_ports (s : DState) (hist : List DevIn) :
+    (dRun s hist).map (·.ports) = devRun s.dev (tokIns s.address hist) := by
+  induction hist generalizing s with
+  | nil => rfl
+  | cons i is ih => simp only [dRun, List.map_cons, tokIns, devRun, dStep, ih]
+
+theorem dFinal_dev (s : DState) (hist : List DevIn) :
+    (dFinal s hist).dev = devFinal s.dev (tokIns s.address hist) := by
+  induction hist generalizing s with
+  | nil => rfl
+  | cons i is ih => simp only [dFinal, tokIns, devFinal, dStep, ih]
+
+/-- The address register: cleared by a bus reset, otherwise loaded by an endpoint's address update
+(the bus reset wins in the same cycle), otherwise kept. -/
+theorem address_exact (s : DState) (hist : List DevIn) :
+    (dRun s hist).map (·.activeAddress) = addrTrace s.address hist := by
+  induction hist generalizing s with
+  | nil => rfl
+  | cons i is ih => simp only [dRun, List.map_cons, addrTrace, dStep, ih]
+
+theorem bus_reset_clears_address (s : DState) (i : DevIn) (h : i.busReset = true) :
+    (dStep s i).1.address = 0 := by
+  simp [dStep, nextAddress, h]
+
+/-- One clock: a bus reset (and an address update) leaves `frame_number`, `microframe_number`, the two
+strobes and the whole token detector exactly as without it — the code assigns none of them. -/
+theorem bus_reset_step_frame (s : DState) (i : DevIn) (b c : Bool) (n : Nat) :
+    (dStep s { i with busReset := b, addressChanged := c, newAddress := n }).1.dev.frame = (dStep s i).1.dev.frame ∧
+    (dStep s { i with busReset := b, addressChanged := c, newAddress := n }).2.ports = (dStep s i).2.ports := by
+  exact ⟨rfl, rfl⟩
+
+/-- **C21 with bus resets.**  For every history of the device inputs — UTMI receive columns (8-bit
+data), bus resets in any cycles (also back to back, or held for many cycles as without VBUS), address
+updates — the frame and microframe registers are the fold of `onSof` over the well-formed SOFs among
+the received packets: the right-hand side does not mention the reset / address columns.  In
+particular a bus reset does not clear or otherwise touch the frame registers (that is what the code
+does; USB 2.0 does not ask for more: the next SOF sets them). -/
+theorem frame_tracks_sof_through_resets (hist : List DevIn) (x : DevIn)
+    (hd : ∀ i ∈ hist ++ [x], i.rx.data < 256) :
+    (dFinal dInit (hist ++ [x])).dev.frame
+      = ((packetsOf none (hist.map (·.rx))).filterMap sofNumber).foldl onSof init := by
+  rw [dFinal_dev, tokIns_append]
+  show (devFinal devInit _).frame = _
+  rw [frame_tracks_sof, tokIns_rx]
+  intro i hi
+  simp only [List.mem_append, List.mem_singleton] at hi
+  rcases hi with hi | rfl
+  · have : i.rx ∈ (tokIns dInit.address hist).map (·.rx) := List.mem_map_of_mem hi
+    rw [tokIns_rx] at this
+    obtain ⟨j, hj, e⟩ := List.mem_map.mp this
+    rw [← e]
+    exact hd j (by simp [hj])
+  · exact hd x (by simp)
+
+/-- The SOF announcement of every cycle, from the receive columns alone: `some n` exactly in the cycle
+after the one in which a packet that is a well-formed SOF with number `n` ended. -/
+def sofTrace : Track → Option Nat → List RxCycle → List (Option Nat)
+  | _, _, [] => []
+  | cur, a, c :: cs => a :: sofTrace (trackNext cur c) ((trackDone cur c).bind sofNumber) cs
+
+theorem specRun_sofTrace (cfg : Config) (cur : Track) (r : Regs) (hist : List In) :
+    (specRun cfg cur r hist).map sofOf = sofTrace cur (sofOf r) (hist.map (·.rx)) := by
+  induction hist generalizing cur r with
+  | nil => rfl
+  | cons i is ih =>
+    simp only [specRun, List.map_cons, sofTrace, ih]
+    congr 2
+    cases hdn : trackDone cur i.rx with
+    | none => simp [specNextRegs, hdn, clearStrobes, sofOf]
+    | some p => simp only [specNextRegs, hdn, sofOf_report, sofNumber, Option.bind_some]
+
+/-- Cycle level, with bus resets: the four ports in **every** cycle of every history are `specOuts` of
+the SOF announcements computed from the receive columns alone.  So in a cycle without an announced
+SOF (whatever the reset input does in, before or after that cycle) `new_frame = sof_detected = 0`
+and the registers keep their values. -/
+theorem device_ports_exact (hist : List DevIn) (hd : ∀ i ∈ hist, i.rx.data < 256) :
+    (dRun dInit hist).map (·.ports) = specOuts init (sofTrace none none (hist.map (·.rx))) := by
+  rw [dRun_ports]
+  show devRun devInit _ = _
+  rw [device_outputs_exact, specRun_sofTrace, tokIns_rx]
+  · rfl
+  · intro i hi
+    have : i.rx ∈ (tokIns dInit.address hist).map (·.rx) := List.mem_map_of_mem hi
+    rw [tokIns_rx] at this
+    obtain ⟨j, hj, e⟩ := List.mem_map.mp this
+    rw [← e]
+    exact hd j hj
+
+/-- Two histories with the same receive columns — differing arbitrarily in where bus resets and
+address updates happen — show the same four ports in every cycle. -/
+theorem bus_reset_no_effect_on_frame_ports (h₁ h₂ : List DevIn) (hrx : h₁.map (·.rx) = h₂.map (·.rx))
+    (hd : ∀ i ∈ h₁, i.rx.data < 256) :
+    (dRun dInit h₁).map (·.ports) = (dRun dInit h₂).map (·.ports) := by
+  rw [device_ports_exact h₁ hd, device_ports_exact h₂, hrx]
+  intro i hi
+  have : i.rx ∈ h₁.map (·.rx) := hrx ▸ List.mem_map_of_mem hi
+  obtain ⟨j, hj, e⟩ := List.mem_map.mp this
+  rw [← e]
+  exact hd j hj
+
+/-- In every cycle: `new_frame` is high iff a SOF is announced in that very cycle and its number
+differs from the `frame_number` shown in that cycle; `sof_detected` iff a SOF is announced. -/
+theorem specOuts_strobes (s : State) (as : List (Option Nat)) :
+    ∀ p ∈ (specOuts s as).zip as,
+      (p.1.newFrame = true ↔ ∃ n, p.2 = some n ∧ n ≠ p.1.frameNumber) ∧
+      (p.1.sofDetected = true ↔ p.2.isSome = true) := by
+  induction as generalizing s with
+  | nil => simp [specOuts]
+  | cons a rest ih =>
+    intro p hp
+    cases a with
+    | none =>
+      simp only [specOuts, List.zip_cons_cons, List.mem_cons] at hp
+      rcases hp with rfl | hp
+      · simp
+      · exact ih s p hp
+    | some n =>
+      simp only [specOuts, List.zip_cons_cons, List.mem_cons] at hp
+      rcases hp with rfl | hp
+      · simp
+      · exact ih _ p hp
+
+/-- `new_frame_iff_changed` for the device in every cycle of every history with bus resets. -/
+theorem new_frame_iff_changed_every_cycle (hist : List DevIn) (hd : ∀ i ∈ hist, i.rx.data < 256) :
+    ∀ p ∈ ((dRun dInit hist).map (·.ports)).zip (sofTrace none none (hist.map (·.rx))),
+      (p.1.newFrame = true ↔ ∃ n, p.2 = some n ∧ n ≠ p.1.frameNumber) ∧
+      (p.1.sofDetected = true ↔ p.2.isSome = true) := by
+  rw [device_ports_exact hist hd]
+  exact specOuts_strobes _ _
+
+/-- The registers shown in the first cycle of `specOuts` are the state. -/
+theorem specOuts_head (s : State) (a : Option Nat) (rest : List (Option Nat)) :
+    ∃ o tl, specOuts s (a :: rest) = o :: tl ∧ o.frameNumber = s.frameNumber ∧ o.microframe = s.microframe := by
+  cases a <;> exact ⟨_, _, rfl, rfl, rfl⟩
+
+/-- Between a cycle without an announced SOF and the next cycle the two registers do not change. -/
+theorem specOuts_hold (s : State) (as : List (Option Nat)) :
+    ∀ q ∈ ((specOuts s as).zip as).zip (specOuts s as).tail, q.1.2 = none →
+      q.2.frameNumber = q.1.1.frameNumber ∧ q.2.microframe = q.1.1.microframe := by
+  induction as generalizing s with
+  | nil => simp [specOuts]
+  | cons a rest ih =>
+    cases rest with
+    | nil => cases a <;> simp [specOuts]
+    | cons b rest' =>
+      intro q hq hn
+      cases a with
+      | none =>
+        obtain ⟨o, tl, e, h1, h2⟩ := specOuts_head s b rest'
+        have ih' := ih s
+        rw [e] at ih'
+        simp only [specOuts, e, List.zip_cons_cons, List.tail_cons, List.mem_cons] at hq
+        rcases hq with rfl | hq
+        · exact ⟨h1, h2⟩
+        · exact ih' q (by simpa [List.zip_cons_cons, List.tail_cons] using hq) hn
+      | some n =>
+        obtain ⟨o, tl, e, h1, h2⟩ := specOuts_head (onSof s n) b rest'
+        have ih' := ih (onSof s n)
+        rw [e] at ih'
+        simp only [specOuts, e, List.zip_cons_cons, List.tail_cons, List.mem_cons] at hq
+        rcases hq with rfl | hq
+        · simp at hn
+        · exact ih' q (by simpa [List.zip_cons_cons, List.tail_cons] using hq) hn
+
+/-- `frame_number` / `microframe_number` of the device change only from a cycle in which a SOF is
+announced to the next one — never because of a bus reset. -/
+theorem registers_change_only_on_sof (hist : List DevIn) (hd : ∀ i ∈ hist, i.rx.data < 256) :
+    ∀ q ∈ (((dRun dInit hist).map (·.ports)).zip (sofTrace none none (hist.map (·.rx)))).zip
+            ((dRun dInit hist).map (·.ports)).tail,
+      q.1.2 = none → q.2.frameNumber = q.1.1.frameNumber ∧ q.2.microframe = q.1.1.microframe := by
+  rw [device_ports_exact hist hd]
+  exact specOuts_hold _ _
+
 /-- Properties of `onSof` in the words of the property. -/
 theorem onSof_spec (s : State) (n : Nat) :
     (onSof s n).frameNumber = n ∧
@@ -182,5 +389,22 @@ example :
         ++ [waitC 0, byteC 0xA5, byteC 0xAD, waitC 3, byteC 0xCA, idleC 0]
         ++ [waitC 0, byteC 0xA5, byteC 0xAE, byteC 0xCA, idleC 0, idleC 0]).map (fun c => ⟨c, 0⟩))).frame
     = ⟨0x2AD, 1⟩ := by decide +kernel
+
+/-- Non-vacuity with bus resets: SOF 0x2AD; a bus reset held for three cycles together with an address
+update; the same SOF again (it is a *repeat*: microframe 1, no new frame — the reset did not clear
+the frame number); a bus reset in the very cycle the second SOF is announced. -/
+example :
+    let rx := [waitC 0, byteC 0xA5, byteC 0xAD, byteC 0xCA, idleC 0, idleC 0, idleC 0, idleC 0,
+               waitC 0, byteC 0xA5, byteC 0xAD, byteC 0xCA, idleC 0, idleC 0, idleC 0]
+    let rst := [false, false, false, false, false, true, true, true,
+                false, false, false, false, false, true, false]
+    let hist := (rx.zip rst).map (fun p => (⟨p.1, p.2, p.2, 0x55⟩ : DevIn))
+    (dFinal dInit hist).dev.frame = ⟨0x2AD, 1⟩ ∧ (dFinal dInit hist).address = 0 ∧
+    (dRun dInit hist).map (fun o => (o.ports.newFrame, o.ports.sofDetected))
+      = [(false, false), (false, false), (false, false), (false, false), (false, false), (true, true),
+         (false, false), (false, false), (false, false), (false, false), (false, false), (false, false),
+         (false, false), (false, true), (false, false)] ∧
+    sofTrace none none rx = [none, none, none, none, none, some 0x2AD, none, none, none, none, none, none,
+         none, some 0x2AD, none] := by decide +kernel
 
 end LunaVerif.Frame
